@@ -32,6 +32,20 @@ def spec_is_complex(spec: dict) -> bool:
     return any(pc(d) for d in spec["layers"])
 
 
+TREE_LIMIT = 60000
+
+
+class TooLarge(Exception):
+    """The circuit's DAG unfolds into a tree too large for the tree-shaped Lean evaluator."""
+
+
+def unfolded_size(ser_circ: dict) -> int:
+    size = []
+    for d in ser_circ["layers"]:
+        size.append(1 + sum(size[j] for j in d.get("in", [])))
+    return sum(size[o] for o in ser_circ["outputs"])
+
+
 class ModelCircuit:
     """A symbolic circuit registered with the Lean driver in the appropriate number mode."""
 
@@ -48,6 +62,11 @@ class ModelCircuit:
         self.d = leanmodel.driver(self.mode)
         r = self.d.put_circuit(self.cid, self.ser)
         self.wf = r["wf"]
+        self.tree_size = unfolded_size(self.ser)
+
+    def guard(self):
+        if self.tree_size > TREE_LIMIT:
+            raise TooLarge(f"unfolded tree has {self.tree_size} nodes")
 
     def drop(self):
         try:
@@ -56,6 +75,7 @@ class ModelCircuit:
             pass
 
     def eval(self, theta, X):
+        self.guard()
         return self.d.eval(self.cid, theta, X)
 
     def magnitude(self, theta, X):
